@@ -52,6 +52,10 @@ pub enum Cond {
     IfLetHalf(Var, Expr),
     /// upward closed test on a lattice variable: lat_above(l, e)
     LatAbove(Var, Expr),
+    /// `if let <c> = <var>` (core form of a `?c` pattern argument)
+    IfLetConst(Var, i32),
+    /// `if let <new> = <var>` (core form of a `?x` pattern argument)
+    IfLetBind(Var, Var),
 }
 
 #[derive(Clone, Debug, PartialEq, Eq, Hash, PartialOrd, Ord)]
@@ -63,7 +67,7 @@ pub enum Gen {
 }
 
 #[derive(Clone, Debug, PartialEq, Eq, Hash, PartialOrd, Ord)]
-pub enum AggFn { Count, Sum, Min, Max, Mean, Percentile50, MinMax /* user aggregator yielding 0..2 values */ }
+pub enum AggFn { Count, Sum, Min, Max, Mean, Percentile50, MinMax /* user aggregator yielding 0..2 values */, Not /* agg () = not() in .. */ }
 
 #[derive(Clone, Debug, PartialEq, Eq, Hash, PartialOrd, Ord)]
 pub struct Atom { pub rel: usize, pub args: Vec<Arg>, pub conds: Vec<Cond> }
